@@ -148,8 +148,6 @@ HEADER = """#[verifier::exec_allows_no_decreases_clause]
             // the question to decide: `l op r`, negated if `negate`, on the values the operands denote now
             same_question(val(old(self).gh@, *l), if negate { neg(*op) } else { *op }, val(old(self).gh@, *r), old(self).gh@.goal),
             belief_sound(old(self)),        // C01's invariant on the generator's belief about N/Z, assumed on entry
-            // A-acc-flags: an operand handed over in the accumulator was just computed there, N/Z describe it (caller obligation, assumed)
-            (l is A || r is A) ==> old(self).gh@.cmp == Some((old(self).gh@.areg, zero())),
         ensures
             final(self).compiler_state == old(self).compiler_state,
             res is Ok ==> belief_sound(final(self)), //@ C01:condex-flags-belief-kept
@@ -185,6 +183,12 @@ def candidates(f):
                 sim = dict(sim, expect={"z": want})
                 out.append({"source": "%s unsigned char z;\nvoid main() { z = 0; if (%s %s %s) z = 1; }\n" % (decl, lt, op, rt), "args": ["-O0"],
                             "expect": {"panic": False}, "simulate": sim, "note": "left = %d, right = %d: C gives z = %d" % (a, b, want)})
+    # an accumulator operand compared with zero when the flags do not reflect it (several case values; a function result)
+    for x in (0, 1, 2, 3):
+        out.append({"source": "unsigned char x, z;\nvoid main() { z = 0; switch (x & 3) { case 1: case 0: z = 1; break; default: z = 2; } }\n", "args": ["-O0"], "expect": {"panic": False},
+                    "simulate": {"init": {"x": x}, "expect": {"z": 1 if x in (0, 1) else 2}}, "note": "x = %d" % x})
+        out.append({"source": "unsigned char x, z;\nunsigned char f() { z = 5; return x; }\nvoid main() { if (f()) z = 1; else z = 2; }\n", "args": ["-O0"], "expect": {"panic": False},
+                    "simulate": {"init": {"x": x}, "expect": {"z": 1 if x else 2}}, "note": "x = %d" % x})
     # 16-bit: arrays of shorts are stored as a table of low bytes followed by a table of high bytes
     for lt, rt, const_left in (("1000", "s[Y]", True), ("s[Y]", "1000", False), ("1000", "s[X]", True)):
         for op in ops[:4]:
@@ -205,8 +209,7 @@ def build(repo):
                           "belief_sound on entry: whenever the generator's flags belief claims an operand, N/Z are those of that operand (C01's invariant, established elsewhere; "
                           "U-plusplus / U-csleep / label() prove pieces of it)",
                           "flags_ok is a stub with the meaning of FlagsState written in spec fn claims (derived PartialEq on a String-carrying enum has no Verus specification)",
-                          "A-acc-flags: when an operand is the accumulator, N/Z describe its value on entry (the expression evaluator's last instruction; caller obligation, not verified)",
-                          "signedness of the comparison (the `signed` argument of the branch emitters) and the acc_in_use / tmp_in_use bookkeeping are not part of the contract",
+                                                    "signedness of the comparison (the `signed` argument of the branch emitters) and the acc_in_use / tmp_in_use bookkeeping are not part of the contract",
                           "the callers' use of the result (generate_condition) and termination of the self-recursion (R9) are not under contract"])
     gc = SourceFile(repo, "src/generate/generate_conditions.rs")
     gm = SourceFile(repo, "src/generate/mod.rs")
@@ -227,7 +230,7 @@ def build(repo):
     f = gc.fn("generate_condition_ex", within="GeneratorState")
     cuts.append(f)
     f.sub(r"\blabel\.into\(\)", "label.to_string()", "R3-into (&str -> String)", expect=(0, 6))
-    f.sub(r"(=\s*)\*op(\s*\n)", r"\1*op\2", "noop")
+    f.sub(r"\bself\.flags == FlagsState::(A|X|Y|Unknown)\b", r"(match self.flags { FlagsState::\1 => true, _ => false })", "R3 `flags == FlagsState::V` -> match (definition of the derived PartialEq on a unit variant)", expect=(0, 6))
     f.set_header(HEADER, expect_sig="fn generate_condition_ex( &mut self, l: &ExprType, op: &Operation, r: &ExprType, pos: usize, negate: bool, label: &str, ) -> Result<(), Error>")
     # the fact everything below rests on, stated where the code has just established it: (left, operator, right) asks the caller's question
     f.after_stmt(r"let operator = if switch", "        proof { assert(same_question(val(self.gh@, *left), operator, val(self.gh@, *right), self.gh@.goal)); } //@ C01,C15:condex-swap-mirror")
